@@ -222,6 +222,8 @@ class E:
             return s + ")"
         if k == "scalar":
             return "(" + self.query.render(r) + ")"
+        if k == "paren":
+            return "(" + self.kids[0].render(r) + ")"
         raise ValueError(k)
 
     def tags(self):
@@ -500,6 +502,11 @@ def _rel_outputs(rel, env, ds, notes):
     if rel.kind == "derived":
         return rel.query.outputs(env, ds, notes)
     if rel.kind == "cte":
+        if rel.name not in env:
+            # a CTE referenced inside its own body (recursive): not modelled at column level
+            if notes is not None:
+                notes.add("recursive_cte_reference")
+            return []
         return env[rel.name]
     raise ValueError(rel.kind)
 
@@ -827,6 +834,8 @@ class Gen:
     def __init__(self, rnd, schemas=("sa", "sb"), qualify_p=0.3, alias_p=0.5):
         self.rnd, self.schemas, self.qualify_p, self.alias_p = rnd, schemas, qualify_p, alias_p
         self.nm = Names(rnd)
+        # a second stream for purely syntactic decorations (extra parentheses), so that adding one does not shift the statements drawn from rnd
+        self.aux = random.Random(20260926)
 
     # -- relations
     def base(self, alias=None, force_alias=False, schema="?"):
@@ -856,11 +865,17 @@ class Gen:
             return col_fn()
         k = r.choice(["arith", "func", "case", "cast", "window", "coalesce"])
         if k == "arith":
-            return E("arith", self.expr(rels, depth - 1, col_fn), self.expr(rels, depth - 1, col_fn) if r.random() < 0.7 else lit(2), fname=r.choice(["+", "-", "*"]))
+            e = E("arith", self.expr(rels, depth - 1, col_fn), self.expr(rels, depth - 1, col_fn) if r.random() < 0.7 else lit(2), fname=r.choice(["+", "-", "*"]))
+            # an operand in parentheses of its own: (coalesce(a.x, 0) + a.y) * b.z, (abs(a.x)) - 2
+            e.kids = [E("paren", k0) if k0.kind != "lit" and self.aux.random() < 0.35 else k0 for k0 in e.kids]
+            return e
         if k == "func":
             return E("func", *[self.expr(rels, depth - 1, col_fn) for _ in range(r.randint(1, 2))], fname=r.choice(["max", "min", "abs", "round", "concat", "upper"]))
         if k == "case":
-            return E("case", self.expr(rels, depth - 1, col_fn), self.expr(rels, depth - 1, col_fn), lit(0) if r.random() < 0.5 else self.expr(rels, depth - 1, col_fn))
+            e = E("case", self.expr(rels, depth - 1, col_fn), self.expr(rels, depth - 1, col_fn), lit(0) if r.random() < 0.5 else self.expr(rels, depth - 1, col_fn))
+            if e.kids[0].kind != "lit" and self.aux.random() < 0.3:
+                e.kids[0] = E("paren", e.kids[0])  # CASE WHEN (abs(s.p)) > 0 THEN ...
+            return e
         if k == "cast":
             return E("cast", self.expr(rels, depth - 1, col_fn), fname=r.choice(["int", "varchar(20)", "decimal(10, 2)"]))
         if k == "window":
@@ -908,7 +923,9 @@ class Gen:
             elif allow_unres and k < 0.30 and len(rels) > 1:
                 out.append(Item(col(self.nm.ucol()), self.nm.out() if r.random() < 0.5 else None))
             else:
-                e = self.expr(rels, r.randint(0, depth), lambda: self.qcol(rels, env_names))
+                # expressions nest one or two levels deeper than the item depth now and then: (abs(a.x) + a.y) * b.z, cast(coalesce(..) as int)
+                xd = self.aux.random()
+                e = self.expr(rels, r.randint(0, depth) + (2 if xd < 0.1 else 1 if xd < 0.4 else 0), lambda: self.qcol(rels, env_names))
                 if e.kind == "col":
                     out.append(Item(e, self.nm.out() if r.random() < 0.5 else None))
                 else:
